@@ -77,6 +77,7 @@ pub(super) struct Sim {
     pub(super) last_lab_dump: BTreeMap<String, String>,
     pub(super) committed_txs: Vec<BuiltTx>,
     pub(super) current_built: Vec<BuiltTx>,
+    pub(super) all_built: Vec<BuiltTx>,
     pub(super) in_flight: Vec<ibc::InFlight>,
     pub(super) packet_seq: u64,
     pub(super) ok: bool,
@@ -309,6 +310,7 @@ impl Sim {
             last_lab_dump: BTreeMap::new(),
             committed_txs: vec![],
             current_built: vec![],
+            all_built: vec![],
             in_flight: vec![],
             packet_seq: 0,
             ok: true,
@@ -363,6 +365,7 @@ impl Sim {
         let built = gen::generate_block_txs(&mut self.uni, &mut self.rng, &snapshot, &self.committed_txs, height, &self.profile).await;
         for b in &built {
             self.log.ev(b.to_json(hist, height));
+            self.all_built.push(b.clone());
         }
         for b in &built {
             for n in 0..nn {
@@ -457,6 +460,25 @@ impl Sim {
             }
         }
         let ctx = decided.unwrap();
+        if self.profile == "proposals" {
+            // what the honest proposal looks like (sizes, groups, sequenced bytes), then the mutation catalogue
+            let snap = self.nodes[0].storage.latest_snapshot();
+            let mut groups = vec![];
+            let mut seq_bytes = 0usize;
+            let mut user_bytes = 0usize;
+            for t in &ctx.txs {
+                if let Ok(c) = CheckedTransaction::new(t.clone(), &snap).await {
+                    groups.push(format!("{:?}", c.group()));
+                    seq_bytes += c.rollup_data_bytes().map(|(_, d)| d.len()).sum::<usize>();
+                    user_bytes += t.len();
+                }
+            }
+            self.log.ev(json!({"kind": "proposal_honest", "hist": hist, "height": height, "max_tx_bytes": ctx.max_tx_bytes,
+                "total_bytes": ctx.txs.iter().map(|t| t.len()).sum::<usize>(), "user_tx_bytes": user_bytes, "sequenced_bytes": seq_bytes,
+                "groups": groups, "n_items": ctx.txs.len(), "mempool_len": self.nodes[0].app.mempool().len().await}));
+            let judge = self.rng.gen_range(0..nn);
+            self.mutate_and_judge(&ctx, judge, &built).await;
+        }
 
         // ---- 3. the decided block on every node along its own path
         let mut responses = vec![];
@@ -615,7 +637,7 @@ impl Sim {
         }
     }
 
-    async fn process_on(&mut self, n: usize, ctx: &BlockCtx, class: &str) -> bool {
+    pub(super) async fn process_on(&mut self, n: usize, ctx: &BlockCtx, class: &str) -> bool {
         let res = {
             let node = &mut self.nodes[n];
             let storage = node.storage.clone();
